@@ -277,6 +277,8 @@ def pair_work(arg):
         o = core.run_one({"src": r.text})
         out["n"] += 1
         out["shas"].add(core.sha(r.text)[:12])
+        if "sample" not in out:
+            out["sample"] = {"pair": "%s %s %s" % (ni, op, nj), "values": [repr(show(ai)), repr(show(aj))], "abstract_verdict": k[0], "script_tail": r.text[-400:]}
         out["kinds"][k[0]] = out["kinds"].get(k[0], 0) + 1
         if o.timeout or o.stack_overflow:
             out["inconclusive"] += 1
@@ -402,6 +404,8 @@ def run(rep, tier):
         rep.process_runs += res["n"]
         rep.distinct.update(res["shas"])
         rep.inconclusive += res["inconclusive"]
+        if res.get("sample"):
+            rep.actual_sample(res["sample"])
         for k, v in res["kinds"].items():
             rep.tally("single_pairs", k, v)
         for sig, what, src in res["viol"]:
